@@ -7,6 +7,7 @@ import (
 	"io"
 	"net/http"
 	"testing"
+	"time"
 
 	"github.com/go-netty/go-netty/codec/xhttp"
 
@@ -44,7 +45,7 @@ func genC06HTTP(t *rapid.T) E1Case {
 	}
 	req += "\r\n"
 	c.Tasks = []E1Task{{Role: "feeder", Ops: []E1Op{{Op: "feed", Text: req}}}}
-	c.Futile = rapid.SampledFrom([]int{0, 0, 1, 2}).Draw(t, "futile")
+	c.Futile = drawFutile(t, []int{0, 0, 1, 2})
 	if rapid.Bool().Draw(t, "directed") {
 		c.Prefix = []E1Dir{
 			{Task: 0, Label: "\x00end"},
@@ -122,7 +123,7 @@ func runC06HTTP(c E1Case) (out core.Outcome) {
 		return
 	}
 	for _, ev := range evs {
-		if ev.Kind == "writev" && ev.Seq < ce.Seq && ev.EndSeq > ce.Seq {
+		if (ev.Kind == "writev" || ev.Kind == "write") && ev.Seq < ce.Seq && ev.EndSeq > ce.Seq {
 			out.Violation = core.Viol("C06/closed-during-batch", "the transport was closed while the sender was inside Writev")
 			return
 		}
@@ -158,7 +159,7 @@ func genC06(t *rapid.T) E1Case {
 		c.Tasks = append(c.Tasks, task)
 		after = append(after, w)
 	}
-	closeOp := E1Op{Op: "close", Err: rapid.SampledFrom([]string{"nil", "sentinel", "wrapped"}).Draw(t, "cerr")}
+	closeOp := E1Op{Op: "close", Err: rapid.SampledFrom(closeErrKinds).Draw(t, "cerr")}
 	cancelFirst := rapid.IntRange(0, 3).Draw(t, "cancelfirst") == 0 // the parent context ends first (what Shutdown does)
 	if rapid.IntRange(0, 3).Draw(t, "selfclose") == 0 {
 		// the last writer closes the channel itself, once the others are done
@@ -175,7 +176,7 @@ func genC06(t *rapid.T) E1Case {
 	if last := &c.Tasks[len(c.Tasks)-1]; cancelFirst && last.Role == "closer" {
 		last.Ops = append([]E1Op{{Op: "cancelparent"}}, last.Ops...)
 	}
-	c.Futile = rapid.SampledFrom([]int{0, 0, 0, 1, 1, 2}).Draw(t, "futile")
+	c.Futile = drawFutile(t, []int{0, 0, 0, 1, 1, 2})
 	if rapid.IntRange(0, 1).Draw(t, "directed") == 0 {
 		w0 := rapid.IntRange(0, nw-1).Draw(t, "pw0")
 		w1 := rapid.IntRange(0, nw-1).Draw(t, "pw1")
@@ -256,6 +257,18 @@ func runC06(c E1Case) (out core.Outcome) {
 		out.Violation = v
 		return
 	}
+	if c.Kind != "qblock" && graceExhausted() && r.pollsNoSender == 0 {
+		// no-sleep stage only: the schedule stalled the sender for the whole grace period of a bounded-wait
+		// channel; the statement exempts that
+		r.cls.Add("nosleep:grace-period-exhausted")
+		return
+	}
+	if virtSlept() > 0 {
+		r.cls.Add("nosleep:close-waited")
+		if virtSlept() >= 300*time.Millisecond {
+			r.cls.Add("nosleep:close-waited>=3-polls")
+		}
+	}
 	in := map[int]bool{}
 	for _, id := range p.order {
 		in[id] = true
@@ -281,7 +294,7 @@ func runC06(c E1Case) (out core.Outcome) {
 		}
 	}
 	for _, ev := range evs {
-		if ev.Kind == "writev" && ev.Seq < ce.Seq && ev.EndSeq > ce.Seq {
+		if (ev.Kind == "writev" || ev.Kind == "write") && ev.Seq < ce.Seq && ev.EndSeq > ce.Seq {
 			out.Violation = core.Viol("C06/closed-during-batch", "the transport was closed while the sender was inside Writev (writev seq %d..%d, close seq %d)", ev.Seq, ev.EndSeq, ce.Seq)
 			return
 		}
